@@ -123,8 +123,11 @@ structure Cls where
   params : List TVar
   /-- `vars(cls).get("__orig_bases__")` (model classes only) -/
   ownOrigBases : Option (List Base)
-  /-- `cls.__bases__` (model classes only) -/
-  bases : List Nat
+  /-- `cls.__bases__` (model classes only). Plain classes, hence bare — except
+      for pydantic, where a subscribed parent `P[int]` is a real class created
+      by pydantic and is recognised as parametrised through
+      `__pydantic_generic_metadata__`. -/
+  bases : List Base
   /-- `cls.__mro__` (model classes only, the class itself first) -/
   mro : List Nat
   /-- `vars(cls)["__annotations__"]`: what the class body itself annotates -/
@@ -148,11 +151,11 @@ def implicitParams (H : Hierarchy) (c : Nat) : List Hint :=
     | none => anyHint
 
 /-- `GenericResolver._get_orig_bases` (repaired): the class's own
-    `__orig_bases__`, otherwise its `__bases__` (every one of them bare). -/
+    `__orig_bases__`, otherwise its `__bases__`. -/
 def origBases (H : Hierarchy) (c : Nat) : List Base :=
   match (H.cls c).ownOrigBases with
   | some bs => bs
-  | none => (H.cls c).bases.map fun b => { cls := b, args := none }
+  | none => (H.cls c).bases
 
 /-! ### What an introspector reports (`get_*_shape`, `ShapeGenericResolver._get_members`) -/
 
@@ -171,6 +174,43 @@ def annotated (H : Hierarchy) (c : Nat) (k : Key) : Option Hint :=
 def fieldKeys (H : Hierarchy) (c : Nat) : List Key :=
   ((H.cls c).mro.reverse.flatMap fun d => ownKeys H d).eraseDups
 
+/-! ### Specification: the declared type of a field
+
+  Independent of the resolver: find the class whose body annotates the field
+  (by the MRO), walk the chain of base subscriptions from the requested class
+  down to it carrying the binding of the current class's parameters, and
+  substitute the final binding into the annotation. -/
+
+/-- binding of the parameters of base `b` given the binding `σ` of the
+    parameters of the class that lists `b` among its bases -/
+def bindBase (H : Hierarchy) (σ : Subst) (b : Base) : Subst :=
+  match b.args with
+  | some args => (H.cls b.cls).params.zip (args.map (·.subst σ))
+  | none => (H.cls b.cls).params.zip (implicitParams H b.cls)
+
+/-- the binding of `d`'s parameters seen from `c` under `σ` -/
+def bindTo (H : Hierarchy) : Nat → Nat → Subst → Nat → Option Subst
+  | 0, _, _, _ => none
+  | fuel + 1, c, σ, d =>
+    if c = d then some σ
+    else
+      match (origBases H c).find? fun b => (H.cls b.cls).mro.contains d with
+      | some b => bindTo H fuel b.cls (bindBase H σ b) d
+      | none => none
+
+def declaredAt (H : Hierarchy) (fuel : Nat) (c : Nat) (σ : Subst) (k : Key) : Option Hint :=
+  (definer H c k).bind fun d =>
+    (bindTo H fuel c σ d).bind fun τ =>
+      ((H.cls d).ownAnn.lookup k).map fun t => t.subst τ
+
+/-- **Specification.** the annotation in the defining class with every
+    parameter replaced along the chain of base subscriptions; a bare class
+    receives its implicit parameters. -/
+def declaredType (H : Hierarchy) (tgt : Base) (k : Key) : Option Hint :=
+  declaredAt H (H.classes.length + 1) tgt.cls (bindBase H [] tgt) k
+
+/-! ### Storages per model kind -/
+
 structure Storage where
   members : Members
   overridden : List Key
@@ -179,13 +219,26 @@ structure Storage where
 def mergedMembers (H : Hierarchy) (c : Nat) : Members :=
   (fieldKeys H c).filterMap fun k => (annotated H c k).map fun t => (k, t)
 
+def idSubst (ps : List TVar) : Subst := ps.map fun v => (v, Hint.tv v)
+
+/-- pydantic substitutes the arguments of subscribed parents into
+    `model_fields[...].annotation` itself.  Third-party behaviour, *modelled by
+    the specification* (relative to the class's own parameters) and validated by
+    the raw-members correspondence on conflict-free hierarchies; not verified. -/
+def pydanticMembers (H : Hierarchy) (c : Nat) : Members :=
+  (fieldKeys H c).filterMap fun k =>
+    (declaredAt H (c + 1) c (idSubst (H.cls c).params) k).map fun t => (k, t)
+
 /-- `MembersStorage` of a class for each model kind.
-    dataclass / attrs / NamedTuple / pydantic: `overriden_types` are the fields
-    the class body re-annotates; TypedDict: always empty (its `__annotations__`
-    already contain the parents' hints, see the comment in typed_dict.py). -/
+    dataclass / attrs / NamedTuple: field types are `get_type_hints` (MRO merge),
+    `overriden_types` are the fields the class body re-annotates;
+    TypedDict: `overriden_types` is always empty (its `__annotations__` already
+    contain the parents' hints, see the comment in typed_dict.py);
+    pydantic: `model_fields` annotations, `overriden_types` as for dataclasses. -/
 def rawStorage (H : Hierarchy) (c : Nat) : Storage :=
   match H.kind with
   | .typedDict => { members := mergedMembers H c, overridden := [] }
+  | .pydantic => { members := pydanticMembers H c, overridden := ownKeys H c }
   | _ => { members := mergedMembers H c, overridden := ownKeys H c }
 
 /-! ### The resolver (`GenericResolver`) -/
@@ -232,40 +285,5 @@ def byParents (H : Hierarchy) : Nat → Nat → Members
 /-- `GenericResolver.get_resolved_members(tp).members` for `tp = C`, `C[args]` -/
 def resolve (H : Hierarchy) (tgt : Base) : Members :=
   getResolvedWith H (byParents H H.classes.length) tgt
-
-/-! ### Specification: the declared type of a field
-
-  Independent of the resolver: find the class whose body annotates the field
-  (by the MRO), walk the chain of base subscriptions from the requested class
-  down to it carrying the binding of the current class's parameters, and
-  substitute the final binding into the annotation. -/
-
-/-- binding of the parameters of base `b` given the binding `σ` of the
-    parameters of the class that lists `b` among its bases -/
-def bindBase (H : Hierarchy) (σ : Subst) (b : Base) : Subst :=
-  match b.args with
-  | some args => (H.cls b.cls).params.zip (args.map (·.subst σ))
-  | none => (H.cls b.cls).params.zip (implicitParams H b.cls)
-
-/-- the binding of `d`'s parameters seen from `c` under `σ` -/
-def bindTo (H : Hierarchy) : Nat → Nat → Subst → Nat → Option Subst
-  | 0, _, _, _ => none
-  | fuel + 1, c, σ, d =>
-    if c = d then some σ
-    else
-      match (origBases H c).find? fun b => (H.cls b.cls).mro.contains d with
-      | some b => bindTo H fuel b.cls (bindBase H σ b) d
-      | none => none
-
-def declaredAt (H : Hierarchy) (fuel : Nat) (c : Nat) (σ : Subst) (k : Key) : Option Hint :=
-  (definer H c k).bind fun d =>
-    (bindTo H fuel c σ d).bind fun τ =>
-      ((H.cls d).ownAnn.lookup k).map fun t => t.subst τ
-
-/-- **Specification.** the annotation in the defining class with every
-    parameter replaced along the chain of base subscriptions; a bare class
-    receives its implicit parameters. -/
-def declaredType (H : Hierarchy) (tgt : Base) (k : Key) : Option Hint :=
-  declaredAt H (H.classes.length + 1) tgt.cls (bindBase H [] tgt) k
 
 end Adaptix.Generic
